@@ -22,6 +22,29 @@ SJIS_WORDS = [bytes.fromhex("82a0"),              # hiragana a
               bytes.fromhex("35817e35"),          # 5×5
               bytes.fromhex("83bf31"),            # α1
               bytes.fromhex("817d78")]            # ±x
+# codec edge strings, every one checked lossless with the library's own codec (harness kind `sjdec`: no "!"):
+#  - half-width katakana whose Shift-JIS bytes are also VALID UTF-8 (lead C2..DF + trail A1..BF): a UTF-8 fast path decodes them wrongly
+#    (seed C17-8); runs of even and odd length, with ASCII around them, next to runs that are not valid UTF-8;
+#  - the CP932 / JIS "wave dash class": code points where Shift-JIS flavours disagree (seed C18-8 maps U+FF5E to U+301C).
+CODEC_WORDS = [bytes.fromhex("d0bd"),             # ﾐｽ      (= UTF-8 of U+043D)
+               bytes.fromhex("c3b1"),             # ﾃｱ      (= UTF-8 of U+00F1)
+               bytes.fromhex("cadf"),             # ﾊﾟ      (not valid UTF-8)
+               bytes.fromhex("cadfca"),           # ﾊﾟﾊ     odd length
+               bytes.fromhex("d0bdd0bd"),         # ﾐｽﾐｽ
+               bytes.fromhex("c4b15f31"),         # ﾄｱ_1
+               b"test_non_" + bytes.fromhex("c4b131"),
+               bytes.fromhex("b1"),               # ｱ       single
+               bytes.fromhex("8160"),             # U+FF5E FULLWIDTH TILDE (wave dash cell)
+               bytes.fromhex("8160418160"),       # ~A~ full-width
+               bytes.fromhex("817c"),             # U+FF0D FULLWIDTH HYPHEN-MINUS
+               bytes.fromhex("8191"),             # U+FFE0 FULLWIDTH CENT SIGN
+               bytes.fromhex("8192"),             # U+FFE1 FULLWIDTH POUND SIGN
+               bytes.fromhex("81ca"),             # U+FFE2 FULLWIDTH NOT SIGN
+               bytes.fromhex("8161"),             # U+2225 PARALLEL TO (JIS: U+2016)
+               bytes.fromhex("815c"),             # U+2015 HORIZONTAL BAR (JIS: U+2014)
+               bytes.fromhex("8150"),             # U+FFE3 FULLWIDTH MACRON
+               bytes.fromhex("818f"),             # U+FFE5 FULLWIDTH YEN SIGN
+               bytes.fromhex("815f")]             # U+FF3C FULLWIDTH REVERSE SOLIDUS
 
 
 def rand_string(rng, allow_empty=True):
@@ -30,8 +53,10 @@ def rand_string(rng, allow_empty=True):
         return b""
     if r < 0.55:
         return rng.choice(ASCII_WORDS)
-    if r < 0.75:
+    if r < 0.70:
         return rng.choice(SJIS_WORDS)
+    if r < 0.78:
+        return rng.choice(CODEC_WORDS)
     n = rng.randint(1, 12)
     return bytes(rng.choice(b"abcdefghijklmnopqrstuvwxyzABCDEFGHIJKLMNOPQRSTUVWXYZ0123456789_") for _ in range(n))
 
